@@ -287,7 +287,28 @@ fn main() {
         }
     }
 
+    // ---- 3. live slice: what the handler receives after the Path extractor
+    let mut live_paths: Vec<String> = vec![];
+    for pre in ["/v", "/w"] {
+        for a in ATOMS {
+            live_paths.push(format!("{pre}/{a}"));
+            for b in ATOMS.iter().take(ctx.tier.pick(12, 40)) {
+                live_paths.push(format!("{pre}/{a}/{b}"));
+                live_paths.push(format!("{pre}//{a}///{b}/"));
+            }
+        }
+    }
+    for b in 0..=255u8 {
+        for up in [false, true] {
+            live_paths.push(format!("/v/{}", enc(b, up)));
+            live_paths.push(format!("/w/a{}b/{}", enc(b, up), enc(b, !up)));
+            live_paths.push(format!("/v/%25{}", &enc(b, up)[1..]));
+        }
+    }
+    let live = vh::slices::path_live_slice(&ctx, &live_paths, &samples);
+
     let cov = json!({
+        "live_slice": live,
         "evaluations": cn.evals.load(Ordering::Relaxed),
         "distinct_nontrivial": cn.nontrivial.load(Ordering::Relaxed),
         "rule": "every path = route prefix x every sequence of <=3 segment atoms (dot segments in all spellings, encoded slashes, double encodings, malformed escapes, non-UTF-8, over-long/surrogate encodings) in canonical spelling and in every slash-multiplicity variant of the tier; plus every byte %XX (both hex cases) alone / embedded / in the wildcard, every two-byte %XX%YY (65536, both routes), thorough: every three-byte sequence. Each is sent through the real lookup_route and compared with RefPath+RefMatcher. Non-trivial = the path contains an escape, a dot segment or a repeated slash (paths are distinct by construction).",
